@@ -64,6 +64,10 @@ pub enum RcOp
     /// `spawn_rc_system_command_from` (both only with `ReactPlugin`), `spawn_rc_system` or `spawn_rc_system_from`; the
     /// returned signal is the entity's only clone
     SpawnRc(u8),
+    /// `spawned_syscall` on a counted entity made by `spawn_rc_system(_from)`; with `.1` the system strips its own entity
+    /// of every component it does not need (its own system component included) in the middle of the call: the call
+    /// returns normally and the entity stays (it is counted and clones exist)
+    CallSpawned(u8, bool),
 }
 
 thread_local!
@@ -232,6 +236,13 @@ pub struct RcOutcome
     pub classes: BTreeMap<String, u32>,
 }
 
+/// The system behind `spawn_rc_system(_from)`: optionally strips its own entity during the call.
+fn strip_sys(In((me, strip)): In<(Entity, bool)>, world: &mut World) -> u8
+{
+    if strip { if let Ok(mut em) = world.get_entity_mut(me) { em.retain::<(Parent, Children, Holder, Fuse)>(); } }
+    7
+}
+
 fn hit0(out: &mut RcOutcome, l: &str) { *out.classes.entry(l.to_string()).or_default() += 1; }
 
 fn run_inner(case: &RcCase, out: &mut RcOutcome)
@@ -242,6 +253,8 @@ fn run_inner(case: &RcCase, out: &mut RcOutcome)
     let mut ents: Vec<Entity> = (0..n).map(|_| app.world_mut().spawn_empty().id()).collect();
     let mut m = Model{ alive: vec![true; n], parent: vec![None; n], prepared: vec![false; n], count: vec![0; n], doomed: vec![false; n], sigs: Vec::new(), held: vec![Vec::new(); n], either: vec![false; n], fused: vec![false; n], unknown: vec![false; n] };
     let mut sigs: Vec<Option<AutoDespawnSignal>> = Vec::new();
+    // (entity index, stripped) of the counted entities that carry a spawned system
+    let mut callable: Vec<(usize, bool)> = Vec::new();
     let mut drops_out_of_order = 0u32;
     let mut gcs = 0u32;
     let hit = |out: &mut RcOutcome, l: &str| { *out.classes.entry(l.to_string()).or_default() += 1; };
@@ -412,15 +425,31 @@ fn run_inner(case: &RcCase, out: &mut RcOutcome)
                 {
                     0 => spawn_rc_system_command(app.world_mut(), || {}),
                     1 => spawn_rc_system_command_from(app.world_mut(), SystemCommandCallback::new(|| {})),
-                    2 => spawn_rc_system(app.world_mut(), |In(x): In<u8>| x),
-                    _ => spawn_rc_system_from(app.world_mut(), CallbackSystem::new(|In(x): In<u8>| x)),
+                    2 => spawn_rc_system(app.world_mut(), strip_sys),
+                    _ => spawn_rc_system_from(app.world_mut(), CallbackSystem::new(strip_sys)),
                 };
+                if kind >= 2 { callable.push((ents.len(), false)); }
                 ents.push(sig.entity());
                 m.alive.push(true); m.parent.push(None); m.prepared.push(true); m.count.push(1); m.doomed.push(false);
                 m.held.push(Vec::new()); m.either.push(false); m.fused.push(false); m.unknown.push(false);
                 sigs.push(Some(sig));
                 m.sigs.push(Some(ents.len() - 1));
                 hit(out, "C10:counted_entity_made_by_spawn_rc");
+            }
+            RcOp::CallSpawned(pick, strip) =>
+            {
+                if callable.is_empty() { continue; }
+                let k = *pick as usize % callable.len();
+                let (e, stripped) = callable[k];
+                if m.unknown[e] { continue; }
+                let me = ents[e];
+                let r = spawned_syscall::<In<(Entity, bool)>, u8>(app.world_mut(), SysId::new(me), (me, *strip));
+                let want_ok = m.alive[e] && !stripped;
+                if r.is_ok() != want_ok || (want_ok && r != Ok(7))
+                {
+                    out.violations.push(format!("op {i}: spawned_syscall on counted entity {e} (alive {}, stripped {stripped}) returned {:?}", m.alive[e], r));
+                }
+                if *strip && want_ok { callable[k].1 = true; hit(out, "C10:spawned_system_strips_its_own_entity"); }
             }
             RcOp::Watch(e) =>
             {
@@ -637,7 +666,7 @@ pub fn decode(bytes: &[u8], max_ops: usize, threads: bool) -> RcCase
     let n_ops = below(byte(&mut u), max_ops + 1);
     for _ in 0..n_ops
     {
-        let k = below(byte(&mut u), 43);
+        let k = below(byte(&mut u), 45);
         let a = byte(&mut u) % 12;
         let b = byte(&mut u) % 12;
         let op = match k
@@ -661,6 +690,7 @@ pub fn decode(bytes: &[u8], max_ops: usize, threads: bool) -> RcCase
             38 | 39 => RcOp::Poke(a, b),
             40 => RcOp::Watch(a),
             41 | 42 => RcOp::SpawnRc(b),
+            43 | 44 => RcOp::CallSpawned(a, b % 2 == 1),
             21 | 22 | 23 => RcOp::StoreOn(a, b),
             _ =>
             {
